@@ -24,7 +24,7 @@ def rule(rid, module, pattern, repl, count, why, flags=re.M):
 rule('X6', '*', r'^use embedded_io::', 'use crate::verif_specs::embedded_io::', None,
      'embedded_io traits replaced by the ghost-sink model (specs/10_deps_model.rs)')
 rule('X6', '*', r'^use ufmt::uWrite;\n', '', None, 'ufmt glue impl is not mirrored')
-rule('X6', '*', r'\bembedded_io::Error\b', 'crate::verif_specs::embedded_io::Error', None,
+rule('X6', '*', r'(?<!verif_specs::)\bembedded_io::Error\b', 'crate::verif_specs::embedded_io::Error', None,
      'embedded_io traits replaced by the ghost-sink model')
 
 # ---- utils ------------------------------------------------------------------------------------------
@@ -304,6 +304,12 @@ rule('D18', 'tmpl_autocomplete',
      '(definitions of Iterator::skip_while / take_while / filter / for_each)', flags=re.M | re.S)
 rule('D3', 'tmpl_autocomplete', r'\bn\.starts_with\(name\)', 'crate::verif_specs::str_starts_with(n, name)', None,
      'str::starts_with(&str) == byte-prefix test (shim contract)')
+
+# ---- tmpl_group_help (code emitted by #[derive(CommandGroup)] for Help) ---------------------------------
+rule('D19', 'tmpl_group_help', r'^([ \t]*)(\S[^\n]*)\n[ \t]*\.or_else\(\|(\w+)\| (.*)\)\?;(\n\s*Ok\(\(\)\))',
+     r'\1(match \2 {\n\1    Ok(__v) => Ok(__v),\n\1    Err(\3) => \4,\n\1})?;\5', 1,
+     'Result::or_else(closure) == match on the result (definition of or_else); the closure captures &mut references',
+     flags=re.M | re.S)
 
 
 def apply(module, src, log):
